@@ -67,6 +67,7 @@ type VC struct {
 	onWrite func(string)
 	calledContracts map[string]int
 	externals map[string]int
+	fpUF bool
 	entryEnv *SpecEnv
 	entryHeap *Heap
 }
